@@ -10,7 +10,8 @@ from vlib import sx, lib, model, gen, probe
 
 RULE = ("actions of the supported grammar (incl. (in)equalities, nested or, numeric conditions and effects, when, forall-when, "
         "forall preconditions) x injective renamings: fresh names, every permutation of the existing names (<= 4 parameters: "
-        "exhaustive), chains ?a->?b->?c; a case = (action, map); distinct by action text + map; non-trivial when the map's new "
+        "exhaustive), chains ?a->?b->?c, partial maps (unmentioned parameters keep their names), each also with the dict's keys "
+        "listed in another order than the parameters; a case = (action, map); distinct by action text + map; non-trivial when the map's new "
         "names overlap the old ones")
 DECISIVE = ["compared:signature", "compared:behaviour"]
 DECISIVE_EACH = ["compared:signature", "compared:behaviour", "compared:overlapping-map"]
@@ -38,7 +39,24 @@ def maps_for(rng, params, thorough):
         q = {names[0]: "?o"}
         q.update({p: p for p in names[1:]})
         out.append(("reuse-quantifier-name", q))
-    return out
+        # partial maps: only some parameters renamed (the others keep their names), incl. only the last one
+        out.append(("partial-last", {names[-1]: "?last_new"}))
+        sub = rng.sample(names, rng.randint(1, len(names) - 1))
+        out.append(("partial", {p: f"?n_{i}" for i, p in enumerate(sub)}))
+        # partial map onto a name freed by the same map: ?a -> ?b, ?b -> fresh, rest untouched
+        if len(names) >= 3:
+            out.append(("partial-overlap", {names[1]: "?fresh_b", names[0]: names[1]}))
+    # a map is a set of pairs: the order in which the caller's dict lists them is not part of it.  Every map is
+    # also offered with its keys in another insertion order (reversed / rotated / shuffled).
+    more = []
+    for kind, mp in out:
+        items = list(mp.items())
+        if len(items) < 2:
+            continue
+        alt = rng.choice([items[::-1], items[1:] + items[:1], rng.sample(items, len(items))])
+        if alt != items:
+            more.append((kind + "+keys-reordered", dict(alt)))
+    return out + more
 
 
 def lib_signature(a):
@@ -72,7 +90,7 @@ def run(ctx):
         for a in acts:
             an = a["name"]
             for kind, mp in maps_for(rng, a["params"], thorough):
-                if kind == "reuse-quantifier-name" and "?o" not in sx.plain(a["pre"]) + sx.plain(a["eff"]):
+                if kind.startswith("reuse-quantifier-name") and "?o" not in sx.plain(a["pre"]) + sx.plain(a["eff"]):
                     continue
                 if not ctx.next_case():
                     continue
@@ -80,7 +98,7 @@ def run(ctx):
                 overlapping = bool(set(mp.values()) & set(mp.keys()) - {k for k, v in mp.items() if k == v})
                 wit = {"domain": text, "action": an, "parameters": a["params"], "map": mp, "map_kind": kind,
                        "precondition": sx.plain(a["pre"]), "effect": sx.plain(a["eff"])}
-                if kind == "reuse-quantifier-name":
+                if kind.startswith("reuse-quantifier-name"):
                     # renaming a parameter to the name of a variable bound inside the body captures it: not an
                     # admissible renaming of the *action* (the property speaks of injective maps on parameters, and
                     # capture changes the formula) -> skipped
@@ -98,7 +116,7 @@ def run(ctx):
                     ctx.count("compared:overlapping-map")
                     ctx.nontrivial([text, an, sorted(mp.items())])
                 ctx.feat({"map:" + kind})
-                want = [(mp[p], t) for p, t in a["params"]]
+                want = [(mp.get(p, p), t) for p, t in a["params"]]
                 got = lib_signature(dom2.actions[an])
                 if got != want:
                     ctx.violation("rename:signature-differs", dict(wit, expected=want, observed=got))
